@@ -470,8 +470,12 @@ def C02_transpose_dag_family():
                     real_ins.append(nm)
                 else:
                     real_ins.append(x)
-            nodes.append(helper.make_node(op, real_ins, [out], name=f"n{k}"))
-            vis.append(helper.make_tensor_value_info(out, TensorProto.FLOAT, shape_t))
+            if op == "T":       # a Transpose(p1) of an intermediate value inside the DAG
+                nodes.append(helper.make_node("Transpose", real_ins, [out], perm=list(p1), name=f"n{k}"))
+                vis.append(helper.make_tensor_value_info(out, TensorProto.FLOAT, [shape_t[i] for i in p1]))
+            else:
+                nodes.append(helper.make_node(op, real_ins, [out], name=f"n{k}"))
+                vis.append(helper.make_tensor_value_info(out, TensorProto.FLOAT, shape_t))
         last = body[-1][2]
         out_shape = [shape_t[i] for i in p2]
         nodes.append(helper.make_node("Transpose", [last], ["t2o"], perm=list(p2), name="t2"))
@@ -522,6 +526,27 @@ def C02_transpose_dag_family():
         from jax2onnx.converter import ir_optimizations as opt
         opt.remove_redundant_transpose_add_forests_ir(irm.graph)
         opt.remove_redundant_transpose_pairs_ir(irm.graph)
+
+    # DAGs that transpose one of their own intermediates again (self-inverse permutation on a symmetric shape):
+    # the inner Transpose looks like an input boundary and like an output boundary at once
+    inner = [
+        [("Relu", ["a"], "o0"), ("T", ["o0"], "u"), ("Add", ["u", "o0"], "o1")],
+        [("Add", ["a", "b"], "o0"), ("T", ["o0"], "u"), ("Add", ["u", "o0"], "o1")],
+        [("Add", ["a", "b"], "o0"), ("T", ["o0"], "u"), ("Add", ["o0", "u"], "o1"), ("Relu", ["o1"], "o2")],
+        [("Relu", ["a"], "o0"), ("T", ["o0"], "u"), ("Mul", ["u", "o0"], "o1"), ("Tanh", ["o1"], "o2")],
+    ]
+    for shape, p in (((3, 3), (1, 0)), ((2, 3, 3), (0, 2, 1))):
+        for body in inner:
+            for runner, rname in ((pipeline, "forests+pairs"), (_single("remove_redundant_transpose_pairs_ir"), "pairs"), (_single("remove_redundant_transpose_add_forests_ir"), "forests")):
+                m, feeds = build(shape, p, p, body, "plain")
+                what = f"{[f'{op}{ins}' for op, ins, _ in body]} with an inner Transpose, between Transpose{list(p)} and Transpose{list(p)} on {list(shape)} through {rname}"
+                try:
+                    ok, detail = check_pass(m, runner, feeds, what)
+                except Exception as e:
+                    return False, f"{what}: the pass raised {type(e).__name__}: {str(e)[:160]} (an optimizer that aborts inside a rewrite leaves a half-rewritten graph)"
+                if ok is False:
+                    return False, detail
+                n += 1 if ok else 0
 
     for shape, p1, p2 in perms:
         for body in bodies:
